@@ -196,6 +196,142 @@
                 assert(items0 + mrg(ro0, rn0)
                     =~= items.items@ + mrg(rest(opt_old, old_iter.remaining()), rest(opt_new, new_iter.remaining())));
             }
+//@ fn AspaAction::withdraw
+//@ spec
+    ensures res == (wd(*aspa), AspaAction::Withdraw(aspa.providers)),
+//@ fn AspaDelta::push
+//@ spec
+    requires
+        old(self).counted(),
+        old(self).items@.len() < usize::MAX,
+    ensures
+        final(self).items@ == old(self).items@.push(__p1),
+        // C11: counts match the listed actions
+        final(self).counted(),
+//@ entry
+    proof {
+        lemma_acnt_total(self.items@);
+        assert(self.items@.push(__p1).drop_last() =~= self.items@);
+    }
+//@ fn AspaDelta::is_empty
+//@ spec
+    ensures res == (self.items@.len() == 0),
+//@ fn AspaDelta::extend
+//@ spec
+    requires
+        old(self).counted(),
+        iter.obeys_prophetic_iter_laws(),
+        iter.decrease() is Some,
+        old(self).items@.len() + iter.remaining().len() <= usize::MAX,
+    ensures
+        final(self).items@ == old(self).items@ + iter.remaining(),
+        iter.will_return_none(),
+        // C11: counts match the listed actions
+        final(self).counted(),
+//@ beforeloop 1
+        let ghost rem0 = iter.remaining();
+        let ghost wrn0 = iter.will_return_none();
+//@ loopvar 1 it
+//@ loop 1
+        invariant
+            self.counted(),
+            it.seq() == rem0, it.iter.obeys_prophetic_iter_laws(), it.iter.decrease() is Some,
+            0 <= it.index@ <= rem0.len(),
+            self.items@ =~= old(self).items@ + rem0.take(it.index@ as int),
+            old(self).items@.len() + rem0.len() <= usize::MAX,
+            it.iter.will_return_none() == wrn0,
+//@ fn AspaDelta::construct
+//@ spec
+    requires
+        // assumption on rpki's Asn: its Ord is a strict total order whose Equal is ==
+        total_order::<Asn>(),
+        // the iterators are lawful and finite
+        old_iter.obeys_prophetic_iter_laws(), old_iter.decrease() is Some,
+        new_iter.obeys_prophetic_iter_laws(), new_iter.decrease() is Some,
+        // the two data sets are strictly sorted by customer ASN: one ASPA per customer (snapshot invariant)
+        asorted(firsts(old_iter.remaining())),
+        asorted(firsts(new_iter.remaining())),
+        old_iter.remaining().len() + new_iter.remaining().len() <= usize::MAX,
+    ensures
+        // C11: counts match the listed actions
+        res.counted(),
+        // (the change set as a function of the two data sets)
+        res.items@ == adiff(firsts(old_iter.remaining()), firsts(new_iter.remaining())),
+//@ entry
+    let ghost PO = old_iter.remaining();
+    let ghost PN = new_iter.remaining();
+//@ closure 1
+|__cp1: (&'a Aspa, &'a PayloadInfo)| -> (r: &'a Aspa) ensures r == __cp1.0
+//@ closurecall 1
+        proof {
+            vstd::std_specs::iter::map_postcondition(old_iter, __c1, __r1);
+            assert(FnW::<(&'a Aspa, &'a PayloadInfo), &'a Aspa>::w(&__c1));
+            assert(__r1.will_return_none() ==> deref_seq(__r1.remaining()) =~= firsts(PO));
+        }
+//@ closure 2
+|__cp1: (&'a Aspa, &'a PayloadInfo)| -> (r: &'a Aspa) ensures r == __cp1.0
+//@ closurecall 2
+        proof {
+            vstd::std_specs::iter::map_postcondition(new_iter, __c2, __r2);
+            assert(FnW::<(&'a Aspa, &'a PayloadInfo), &'a Aspa>::w(&__c2));
+            assert(__r2.will_return_none() ==> deref_seq(__r2.remaining()) =~= firsts(PN));
+        }
+//@ beforeloop 1
+    let ghost O = rest(opt_old, old_iter.remaining());
+    let ghost N = rest(opt_new, new_iter.remaining());
+    let ghost wo0 = old_iter.will_return_none();
+    let ghost wn0 = new_iter.will_return_none();
+    proof {
+        lemma_rest_all::<Aspa>();
+        assert(wo0 ==> O =~= firsts(PO));
+        assert(wn0 ==> N =~= firsts(PN));
+        assert(O.len() <= PO.len());
+        assert(N.len() <= PN.len());
+    }
+//@ loop 1
+        invariant_except_break
+            adiff(O, N) == items.items@ + adiff(rest(opt_old, old_iter.remaining()), rest(opt_new, new_iter.remaining())),
+            items.items@.len() + rest(opt_old, old_iter.remaining()).len() + rest(opt_new, new_iter.remaining()).len() <= usize::MAX,
+            old_iter.will_return_none() == wo0,
+            new_iter.will_return_none() == wn0,
+        invariant
+            Asn::obeys_cmp_spec(),
+            // (device, see FnW: lets the solver resolve the Map adapters' iterator specs inside the loop)
+            FnW::<(&'a Aspa, &'a PayloadInfo), &'a Aspa>::w(&vstd::std_specs::iter::map_fun(old_iter)),
+            FnW::<(&'a Aspa, &'a PayloadInfo), &'a Aspa>::w(&vstd::std_specs::iter::map_fun(new_iter)),
+            old_iter.obeys_prophetic_iter_laws(), old_iter.decrease() is Some,
+            new_iter.obeys_prophetic_iter_laws(), new_iter.decrease() is Some,
+            opt_old is None ==> old_iter.remaining().len() == 0 && old_iter.will_return_none(),
+            opt_new is None ==> new_iter.remaining().len() == 0 && new_iter.will_return_none(),
+            items.counted(),
+        ensures
+            items.items@ =~= adiff(O, N),
+            wo0 && wn0,
+        decreases
+            (if opt_old is Some { 1 + old_iter.decrease()->Some_0 } else { 0 })
+            + (if opt_new is Some { 1 + new_iter.decrease()->Some_0 } else { 0 }),
+//@ loopentry 1
+            let ghost items0 = items.items@;
+            let ghost ro0 = rest(opt_old, old_iter.remaining());
+            let ghost rn0 = rest(opt_new, new_iter.remaining());
+            proof {
+                lemma_adiff_unfold(ro0, rn0);
+                lemma_rest(opt_old, old_iter.remaining());
+                lemma_rest(opt_new, new_iter.remaining());
+            }
+//@ loopend 1
+            proof {
+                assert(items0 + adiff(ro0, rn0)
+                    =~= items.items@ + adiff(rest(opt_old, old_iter.remaining()), rest(opt_new, new_iter.remaining())));
+            }
+//@ closure 3
+|x: &'a Aspa| -> (r: (Aspa, AspaAction)) ensures r == (*x, AspaAction::Announce)
+//@ closurecall 3
+                    proof {
+                        vstd::std_specs::iter::map_postcondition(new_iter, __c3, __r3);
+                        assert(FnW::<&'a Aspa, (Aspa, AspaAction)>::w(&__c3));
+                        assert(__r3.will_return_none() ==> __r3.remaining() =~= aann(deref_seq(new_iter.remaining())));
+                    }
 //@ global
 // ---------------------------------------------------------------- order and clone assumptions on P
 spec fn lt<P: Ord>(a: P, b: P) -> bool { a.cmp_spec(&b) == Ordering::Less }
@@ -908,4 +1044,90 @@ proof fn lemma_mrg_describes<P: Ord>(x: Seq<(P, Action)>, y: Seq<(P, Action)>, a
         assert(y.contains((p, Action::Withdraw)) <==> (b.contains(p) && !c.contains(p)));
         assert(y.contains((p, Action::Announce)) <==> (c.contains(p) && !b.contains(p)));
     }
+}
+
+// ================================================================ ASPA
+// derive(Default) on AspaDelta: an empty vector and zero counters (ASSUMED: the derive's semantics)
+pub assume_specification [<AspaDelta as Default>::default] () -> (r: AspaDelta)
+    ensures r.is_default(),
+;
+
+// an ASPA announcing nothing for the customer (rpki's Aspa::withdraw)
+spec fn wd(a: Aspa) -> Aspa { Aspa { customer: a.customer, providers: ProviderAsns::empty_spec() } }
+
+spec fn is_wd(a: AspaAction) -> bool { a is Withdraw }
+
+// number of entries that count as announcements (Announce, Update) / as withdrawals
+spec fn acnt(s: Seq<(Aspa, AspaAction)>, w: bool) -> nat
+    decreases s.len()
+{
+    if s.len() == 0 { 0 } else { acnt(s.drop_last(), w) + if is_wd(s.last().1) == w { 1nat } else { 0nat } }
+}
+
+proof fn lemma_acnt_total(s: Seq<(Aspa, AspaAction)>)
+    ensures acnt(s, false) + acnt(s, true) == s.len()
+    decreases s.len()
+{
+    if s.len() > 0 { lemma_acnt_total(s.drop_last()); }
+}
+
+impl AspaDelta {
+    pub closed spec fn is_default(&self) -> bool {
+        self.items@ == Seq::<(Aspa, AspaAction)>::empty() && self.announce_len == 0 && self.withdraw_len == 0
+    }
+    // C11: announce_len counts the Announce and Update entries, withdraw_len the Withdraw entries
+    spec fn counted(&self) -> bool {
+        &&& self.announce_len == acnt(self.items@, false)
+        &&& self.withdraw_len == acnt(self.items@, true)
+    }
+}
+
+// ---------------------------------------------------------------- ASPA data sets and change sets
+// a data set of ASPAs is sorted strictly by customer ASN (one ASPA per customer)
+spec fn asorted(s: Seq<Aspa>) -> bool { forall|i: int, j: int| 0 <= i < j < s.len() ==> lt(s[i].customer, s[j].customer) }
+
+spec fn firsts(s: Seq<(&Aspa, &PayloadInfo)>) -> Seq<Aspa> { s.map_values(|x: (&Aspa, &PayloadInfo)| *x.0) }
+spec fn aann(s: Seq<Aspa>) -> Seq<(Aspa, AspaAction)> { s.map_values(|x: Aspa| (x, AspaAction::Announce)) }
+spec fn awdr(s: Seq<Aspa>) -> Seq<(Aspa, AspaAction)> { s.map_values(|x: Aspa| (wd(x), AspaAction::Withdraw(x.providers))) }
+
+proof fn lemma_rest_all<T>()
+    ensures
+        forall|rem: Seq<&T>| rem.len() > 0 ==> #[trigger] deref_seq(rem) =~= rest(Some(rem[0]), rem.drop_first()),
+        forall|rem: Seq<&T>| rem.len() == 0 ==> #[trigger] deref_seq(rem) =~= rest(None, rem),
+{
+    assert forall|rem: Seq<&T>| rem.len() > 0 implies #[trigger] deref_seq(rem) =~= rest(Some(rem[0]), rem.drop_first()) by {
+        lemma_rest(Some(rem[0]), rem.drop_first());
+    }
+}
+
+// the merge-join of two ASPA data sets as a recursive function
+spec fn adiff(o: Seq<Aspa>, n: Seq<Aspa>) -> Seq<(Aspa, AspaAction)>
+    decreases o.len() + n.len()
+{
+    if o.len() == 0 { aann(n) }
+    else if n.len() == 0 { awdr(o) }
+    else {
+        match o[0].customer.cmp_spec(&n[0].customer) {
+            Ordering::Less => seq![(wd(o[0]), AspaAction::Withdraw(o[0].providers))] + adiff(o.drop_first(), n),
+            Ordering::Equal => (if o[0].providers != n[0].providers {
+                    seq![(n[0], AspaAction::Update(o[0].providers))]
+                } else { Seq::empty() }) + adiff(o.drop_first(), n.drop_first()),
+            Ordering::Greater => seq![(n[0], AspaAction::Announce)] + adiff(o, n.drop_first()),
+        }
+    }
+}
+
+proof fn lemma_adiff_unfold(o: Seq<Aspa>, n: Seq<Aspa>)
+    ensures
+        o.len() == 0 ==> adiff(o, n) == aann(n),
+        o.len() > 0 && n.len() == 0 ==> adiff(o, n) == awdr(o),
+        o.len() > 0 && n.len() > 0 && o[0].customer.cmp_spec(&n[0].customer) == Ordering::Less ==>
+            adiff(o, n) == seq![(wd(o[0]), AspaAction::Withdraw(o[0].providers))] + adiff(o.drop_first(), n),
+        o.len() > 0 && n.len() > 0 && o[0].customer.cmp_spec(&n[0].customer) == Ordering::Equal ==>
+            adiff(o, n) == (if o[0].providers != n[0].providers {
+                    seq![(n[0], AspaAction::Update(o[0].providers))]
+                } else { Seq::empty() }) + adiff(o.drop_first(), n.drop_first()),
+        o.len() > 0 && n.len() > 0 && o[0].customer.cmp_spec(&n[0].customer) == Ordering::Greater ==>
+            adiff(o, n) == seq![(n[0], AspaAction::Announce)] + adiff(o, n.drop_first()),
+{
 }
